@@ -11,9 +11,10 @@ def kw_only(cfg):
     return s(rt['ep']) or s(rt.get('rn')) or any(s(mw.get(ph)) for mw in I.all_mws(cfg) for ph, _ in I.PHASES)
 
 
-def input_sig(cfg):
-    """signature of the *input* for findings recorded against C01/C02"""
-    if I.has_posonly(cfg):
+def input_sig(cfg, exc=None):
+    """signature of the *input* for findings recorded against C01/C02: a positional-only parameter on the route and the
+    request-time TypeError it causes (any other disagreement on such a configuration is reported normally)"""
+    if I.has_posonly(cfg) and isinstance(exc, TypeError):
         return 'positional-only-parameter'
     return None
 
@@ -105,7 +106,7 @@ def serve(ctx, cfg, built, plan, rc, sources=False, n_requests=1, with_null=True
         ctx.requests += 1
         want, ev, outcome = expected_enters(plan.route, rt)
         if r.exc is not None:
-            ctx.mismatch(input_sig(cfg) or ('request-%s' % type(r.exc).__name__),
+            ctx.mismatch(input_sig(cfg, r.exc) or ('request-%s' % type(r.exc).__name__),
                          'accepted configuration, %s %s raised %r' % (method, path, r.exc), rc)
             return obs
         if r.status != 200:
@@ -141,7 +142,7 @@ def serve(ctx, cfg, built, plan, rc, sources=False, n_requests=1, with_null=True
             ctx.requests += 1
             want, ev, outcome = expected_enters(plan.null, {'ep_returns': 'response', 'rn': None})
             if r.exc is not None or r.status != status:
-                ctx.mismatch(input_sig(cfg) or 'null-route-request', '%s %s -> %s %r (expected %s)' % (method, path, r.status, r.exc, status), rc)
+                ctx.mismatch(input_sig(cfg, r.exc) or 'null-route-request', '%s %s -> %s %r (expected %s)' % (method, path, r.status, r.exc, status), rc)
                 return obs
             got = entered(w.trace)
             if got != want:
